@@ -315,6 +315,10 @@ def task_map_invariant(v, sv):
             st(t) == TS('SCHEDULED'), st(t) == TS('RUNNING'))))),
         ('C04-finished-in-the-map-means-finished', Q([('t', I)], lambda t: z3.Implies(
             z3.And(k.fin.has(t), z3.Select(k.fin.vals, t)), st(t) == TS('FINISHED')))),
+        # GreedySchedulingFromPlan takes the KEYS of the finished map for 'finished': only ingest tasks (nobody's predecessor)
+        # may be recorded there with False
+        ('C03-only-ingest-tasks-are-recorded-unfinished-in-the-finished-map', Q([('t', I)], lambda t: z3.Implies(
+            z3.And(k.fin.has(t), z3.Not(z3.Select(k.fin.vals, t))), z3.Select(sv.heap('Task', 'ghost_ingest'), t)))),
     ]
 
 
@@ -364,7 +368,8 @@ def _atc_accept(c):
 def _atc_req(c):
     k = CV(c.o.self)
     t = c.o.task
-    return [('C04-task-not-run-before', z3.And(k.run.count(t) == 0, z3.Not(z3.And(k.fin.has(t), z3.Select(k.fin.vals, t.t))))),
+    return [('C03-an-ingest-allocation-is-for-an-ingest-task', z3.Implies(c.o.ingest.t, t.ghost_ingest.t)),
+            ('C04-task-not-run-before', z3.And(k.run.count(t) == 0, z3.Not(z3.And(k.fin.has(t), z3.Select(k.fin.vals, t.t))))),
             ('task-is-an-object', t.t > 0)]
 
 
@@ -409,7 +414,7 @@ REG.contract('Cluster.allocate_task_to_cluster',
              raises={'RuntimeError': dict(when=lambda c: z3.Not(_atc_accept(c)))},
              modifies=RES + ['self._tasks.running', 'self._tasks.finished', 'self._usage_data.available', 'self._usage_data.running_tasks',
                              'self._usage_data.ingest', 'self._usage_data.finished_tasks', 'heap:Task.task_status', 'heap:Task.delay_flag'],
-             props=['C01', 'C02', 'C04', 'C09', 'C12'])
+             props=['C01', 'C02', 'C04', 'C09', 'C12', 'C03'])
 
 
 # ---------------------------------------------------------------------------------------------- provision_batch_resources
@@ -520,16 +525,34 @@ def _git_inv(c):
 def _git_ens(c):
     res = c.result
     alloc_pre = c.o._s.ghost.get('alloc', c.eng.alloc0())
-    return [('one-task-per-machine', res.n == z3.If(c.o.demand.t > 0, z3.ToInt(c.o.demand.t), 0)),
+    gi0, gi1 = c.o.heap('Task', 'ghost_ingest'), c.n.heap('Task', 'ghost_ingest')
+    return [('ghost-the-new-tasks-are-ingest-tasks', Q([('t', I)], lambda t: z3.Select(gi1, t) == z3.If(res.count(t) > 0, True, z3.Select(gi0, t)))),
+            ('one-task-per-machine', res.n == z3.If(c.o.demand.t > 0, z3.ToInt(c.o.demand.t), 0)),
             ('existing-tasks-keep-their-status', Q([('x', I)], lambda x: z3.Implies(z3.Select(alloc_pre, x), z3.Select(
                 c.n.heap('Task', 'task_status'), x) == z3.Select(c.o.heap('Task', 'task_status'), x)))),
             ('C06-ingest-tasks-last-the-observation', Q([('t', I)], lambda t: z3.Implies(res.count(t) > 0, z3.And(
                 t > 0, res.count(t) == 1, z3.Not(z3.Select(alloc_pre, t)), _ingest_task_facts(c.n, t, c.o.observation)))))]
 
 
+def _git_ghost(eng, names):
+    """ghost statement at return: every task of the returned list is marked as an ingest task"""
+    st = eng.st
+    res = st.locals.get('tasks')
+    g0 = eng.heap_arr(st, 'Task', 'ghost_ingest', B)
+    g1 = z3.Const(fresh_name_('ghost_ingest'), g0.sort())
+    t = z3.Int(fresh_name_('gt'))
+    st.assume(z3.ForAll([t], z3.Select(g1, t) == z3.If(z3.Select(res.cnt, t) > 0, True, z3.Select(g0, t))))
+    st.heap[('Task', 'ghost_ingest')] = g1
+
+
+def fresh_name_(b):
+    from pyvc.state import fresh_name
+    return fresh_name(b)
+
+
 REG.contract('Cluster._generate_ingest_tasks', params={'demand': 'int', 'observation': 'Observation'},
-             requires=lambda c: [('duration-nonneg', c.o.observation.duration.t >= 0)],
-             ensures=_git_ens, result='list:Task', modifies=['heap:Task.' + f for f in TASK_FIELDS] + ['ghost:alloc'],
+             requires=lambda c: [('duration-nonneg', c.o.observation.duration.t >= 0)], ghost=_git_ghost,
+             ensures=_git_ens, result='list:Task', modifies=['heap:Task.' + f for f in TASK_FIELDS + ['ghost_ingest']] + ['ghost:alloc'],
              props=['C06', 'C08', 'C01'])
 REG.loop('Cluster._generate_ingest_tasks', 0, inv=_git_inv, modifies_locals=['i', 't'],
          modifies=['tasks', 'ghost:alloc'] + ['heap:Task.' + f for f in TASK_FIELDS], props=['C06', 'C08'])
@@ -586,7 +609,8 @@ def _pir_body2(c):
     t, m = g.args['task'], g.args['machine']
     return [('C08-one-allocation-per-ingest-machine', c.eng.truth(g.args['ingest'])),
             ('C01-its-machine-is-in-the-ingest-pool', k1.ing.count(m) > 0),
-            ('C04-its-task-has-not-run', z3.And(k1.run.count(t) == 0, z3.Not(z3.And(k1.fin.has(t), z3.Select(k1.fin.vals, t.t)))))]
+            ('C04-its-task-has-not-run', z3.And(k1.run.count(t) == 0, z3.Not(z3.And(k1.fin.has(t), z3.Select(k1.fin.vals, t.t))))),
+            ('C03-its-task-is-an-ingest-task', z3.Select(n.heap('Task', 'ghost_ingest'), t.t))]
 
 
 def _pir_req(c):
@@ -612,7 +636,7 @@ REG.contract('Cluster.provision_ingest_resources', params={'demand': 'int', 'obs
              yields={0: lambda c: [('one-step-wait', c.n['_ydelay'].t == 1)]}, step=_pir_step,
              raises={'RuntimeError': dict(when=lambda c: c.o.demand.t > z3.ToReal(CV(c.o.self).av.n))},
              modifies=['self._resources.available', 'self._resources.ingest', 'self._ingest.status', 'self._ingest.demand',
-                       'ghost:alloc'] + ['heap:Task.' + f for f in TASK_FIELDS],
+                       'ghost:alloc'] + ['heap:Task.' + f for f in TASK_FIELDS + ['ghost_ingest']],
              props=['C08', 'C01', 'C02', 'C12'])
 REG.loop('Cluster.provision_ingest_resources', 0, inv=_pir_inv0, modifies_locals=['i', 'machine'], modifies=['pairs'],
          elem_types={'pairs': 'pair:Machine,Task'},
@@ -676,3 +700,32 @@ def _other_instance(sv, p, names, qual, frm):
 
 REG.carried.append(Carried('C01-a-suspended-allocation-keeps-its-task-running-and-its-machine-held', 'Cluster.allocate_task_to_cluster',
                            {'ft': 'Task', 'fm': 'Machine', 'fingest': 'bool'}, _holds_machine, _other_instance, props=['C01', 'C02', 'C04']))
+
+
+# ---- the task table (C04 'one row per executed task', C11: a pure function of the current state) -------------------------------
+DF_COLS = z3.Function('df_cols', I, I)
+
+
+def _ftd_inv(c):
+    n = c.n
+    vis = c.x['visited']
+    td = n['task_data']
+    ids = n.heap('Task', 'id')
+    return [('one-column-per-visited-task', td.nk == vis.n),
+            ('columns-are-the-ids-of-the-visited-tasks', Q([('t', I)], lambda t: z3.Implies(z3.Select(vis.cnt, t) > 0, z3.Select(td.keys, z3.Select(ids, t))))),
+            ('every-column-is-the-id-of-a-visited-task', Q([('k', I)], lambda k: z3.Implies(z3.Select(td.keys, k), z3.Exists(
+                [z3.Int('uw')], z3.And(z3.Select(vis.cnt, z3.Int('uw')) > 0, z3.Select(ids, z3.Int('uw')) == k)))))]
+
+
+def _ftd_req(c):
+    k = CV(c.o.self)
+    ids = c.o.heap('Task', 'id')
+    return [('assume:task-ids-are-unique', Q([('t', I), ('u', I)], lambda t, u: z3.Implies(
+        z3.And(k.fin.has(t), k.fin.has(u), t != u), z3.Select(ids, t) != z3.Select(ids, u))))]
+
+
+REG.contract('Cluster.finished_task_time_data', requires=_ftd_req,
+             ensures=lambda c: [('C04-one-column-per-task-in-the-finished-map', DF_COLS(c.result.t) == CV(c.o.self).fin.nk)],
+             result='any', props=['C04', 'C11'],
+             note="C11: the table is a pure function of the cluster state (empty frame: nothing may be cached on the cluster)")
+REG.loop('Cluster.finished_task_time_data', 0, inv=_ftd_inv, modifies_locals=['task'], modifies=['task_data'], props=['C04', 'C11'])
